@@ -43,7 +43,7 @@ def gopher0Line (srv : ServerId) (e : Entry) : Option Str :=
 /-- the `url` computed at the top of `renderobjinfo` (HTTP flavour: `quote(str)`) -/
 def linkUrl (srv : ServerId) (e : Entry) : Option Str :=
   if startsUrl e.selector then urlTail e.selector
-  else if e.isLocal then quote e.selector
+  else if e.isLocal then (quote e.selector).map fun q => if q.isEmpty then [47] else q   -- `quote(selector) or "/"`
   else e.geturl srv.name srv.port
 
 /-- Gemini / Spartan flavour: empty quoted selector becomes "/", type 7 gets the query prefix -/
